@@ -1264,7 +1264,7 @@ Section Loop.
       assert (Hlt : cnt (mu st1) < cnt (mu st2)).
       { apply (P2 u0); auto. now rewrite Emu. }
       pose proof (cnt_le (mu st2)) as Hc. destruct T2 as (L1' & L2' & HA' & HB'). rewrite L1' in Hc.
-      apply IH; [repeat split; auto|]. rewrite Emu in Hlt. lia.
+      apply IH; [split; [exact L1'|split; [exact L2'|split; assumption]]|]. rewrite Emu in Hlt. lia.
     - exists st1. split; [reflexivity|]. split; [exact T1|]. now apply Hf'.
   Qed.
 
@@ -1324,3 +1324,368 @@ Section Loop.
     - intros u v H. apply collect_In in H. destruct H as [_ H]. now apply HA in H.
   Qed.
 End Loop.
+
+(* ================================================================================== *)
+(* 8. Koenig: a second exploration invariant (soundness w.r.t. a closed pair of         *)
+(*    vertex predicates, closure on the V side)                                        *)
+(* ================================================================================== *)
+Section Explore2.
+  Variable g : graph.
+  Variable M : list (nat * nat).
+  Hypothesis W : wf g.
+  Variable P Q : nat -> Prop.
+  Hypothesis HPQ : forall u v, P u -> In v (adjU g u) -> Q v.
+  Hypothesis HQP : forall u v, Q v -> In (u, v) M -> P u.
+
+  Definition vclosed (uu : list nat) (v : nat) : Prop :=
+    forall u, In u (adjV g v) -> In (u, v) M -> In u uu.
+  Definition invs (s : vis) : Prop := (forall u, In u (fst s) -> P u) /\ (forall v, In v (snd s) -> Q v).
+  Definition post2 (s s' : vis) : Prop :=
+    invs s' /\ (forall v, In v (snd s') -> In v (snd s) \/ vclosed (fst s') v).
+
+  Definition rec_spec2 (rec : nat -> vis -> option vis) : Prop :=
+    forall w s s', rec w s = Some s' -> P w -> invs s -> post2 s s'.
+
+  Lemma vclosed_mono : forall uu uu' v, incl uu uu' -> vclosed uu v -> vclosed uu' v.
+  Proof. intros uu uu' v Hi Hc u H1 H2. apply Hi. now apply Hc. Qed.
+
+  Lemma expl_u_spec2 : forall rec, rec_spec g M rec -> rec_spec2 rec -> forall v ws s s',
+    expl_u rec M v ws s = Some s' -> In v (snd s) -> Q v -> invs s ->
+    post2 s s' /\ (forall w, In w ws -> In (w, v) M -> In w (fst s')).
+  Proof.
+    intros rec HR1 HR2 v ws. induction ws as [|w ws IH]; intros s s' H Hv Hq Hi; simpl in H.
+    - inversion H; subst. split; [split; auto|]. intros w [].
+    - destruct (memp (w, v) M) eqn:E.
+      + destruct (rec w s) as [s1|] eqn:E1; [|discriminate]. apply memp_In in E.
+        destruct (HR1 _ _ _ E1) as (Hm1 & Hw1 & _).
+        assert (Hv1 : In v (snd s1)) by (apply Hm1; exact Hv).
+        destruct (HR2 _ _ _ E1 (HQP _ _ Hq E) Hi) as (Hi1 & Hc1).
+        destruct (IH _ _ H Hv1 Hq Hi1) as ((Hi2 & Hc2) & Hw2).
+        destruct (expl_u_spec g M rec HR1 v ws s1 s' H Hv1) as ((Hm2 & _ & _) & _).
+        split; [split; [exact Hi2|]|].
+        * intros v' Hv'. destruct (Hc2 v' Hv') as [Hv1'|]; auto. destruct (Hc1 v' Hv1') as [|Hc]; auto.
+          right. eapply vclosed_mono; eauto.
+        * intros w' [<-|Hw'] Hm'; auto.
+      + destruct (IH _ _ H Hv Hq Hi) as (Hp & Hw2). split; auto.
+        intros w' [<-|Hw'] Hm'; auto. apply memp_nIn in E. contradiction.
+  Qed.
+
+  Lemma expl_v_spec2 : forall rec, rec_spec g M rec -> rec_spec2 rec -> forall us vs s s',
+    expl_v rec g M us vs s = Some s' -> incl vs (adjU g us) -> P us -> invs s -> post2 s s'.
+  Proof.
+    intros rec HR1 HR2 us vs. induction vs as [|v vs IH]; intros s s' H Hin Hp Hi; simpl in H.
+    - inversion H; subst. split; auto.
+    - assert (Hin' : incl vs (adjU g us)) by (intros x Hx; apply Hin; now right).
+      destruct (memp (us, v) M); [eauto|]. destruct (memn v (snd s)); [eauto|].
+      destruct (expl_u rec M v (adjV g v) (fst s, snd s ++ [v])) as [s1|] eqn:E1; [|discriminate].
+      assert (Hq : Q v) by (apply (HPQ us); auto; apply Hin; now left).
+      assert (Hi0 : invs (fst s, snd s ++ [v])).
+      { destruct Hi as [I1 I2]. split; simpl; auto. intros v' Hv'. apply in_app_or in Hv'.
+        destruct Hv' as [|[<-|[]]]; auto. }
+      assert (Hv0 : In v (snd (fst s, snd s ++ [v]))) by (simpl; apply in_or_app; right; now left).
+      destruct (expl_u_spec2 rec HR1 HR2 v _ _ _ E1 Hv0 Hq Hi0) as ((Hi1 & Hc1) & Hw1).
+      destruct (IH _ _ H Hin' Hp Hi1) as (Hi2 & Hc2).
+      destruct (expl_v_spec g M W rec HR1 us vs s1 s' H Hin') as ((Hm2 & _ & _) & _).
+      split; [exact Hi2|]. intros v' Hv'. destruct (Hc2 v' Hv') as [Hv1|]; auto.
+      destruct (Hc1 v' Hv1) as [Hv2|Hc].
+      + simpl in Hv2. apply in_app_or in Hv2. destruct Hv2 as [|[<-|[]]]; auto.
+        right. intros u Hu Hm. apply Hm2. now apply Hw1.
+      + right. eapply vclosed_mono; eauto.
+  Qed.
+
+  Lemma explore_spec2 : forall f, rec_spec2 (explore f g M).
+  Proof.
+    induction f as [|f IH]; intros us s s' H Hp Hi; simpl in H; [discriminate|].
+    destruct (memn us (fst s)) eqn:E.
+    - inversion H; subst. split; auto.
+    - assert (Hi0 : invs (fst s ++ [us], snd s)).
+      { destruct Hi as [I1 I2]. split; simpl; auto. intros u Hu. apply in_app_or in Hu.
+        destruct Hu as [|[<-|[]]]; auto. }
+      destruct (expl_v_spec2 _ (explore_spec g M W f) IH us _ _ _ H (incl_refl _) Hp Hi0) as (Hi1 & Hc1).
+      split; auto.
+  Qed.
+End Explore2.
+
+(* ================================================================================== *)
+(* 9. Koenig size: when BFS finds no augmenting layer, |cover| = |matching|            *)
+(* ================================================================================== *)
+Lemma koenig_fold_None : forall g M l, fold_left (koenig_step g M) l None = None.
+Proof. intros g M l. induction l; simpl; auto. Qed.
+
+(* U vertices reachable from an unmatched U vertex by alternating walks
+   (a graph edge out of U, then the matched edge back into U) *)
+Inductive areach (g : graph) (M : list (nat * nat)) : nat -> Prop :=
+| ar_free : forall u, u < num_u g -> ~ In u (map fst M) -> areach g M u
+| ar_step : forall u v u', areach g M u -> In v (adjU g u) -> In (u', v) M -> areach g M u'.
+
+Section KoenigSize.
+  Variable g : graph.
+  Hypothesis W : wf g.
+  Variable st : hk.
+  Hypothesis HT : TI g st.
+  Hypothesis HD : bfs_done g st.
+  Let M := collect (num_u g) (mu st).
+
+  Let P (u : nat) : Prop := u < num_u g /\ fin g (dist st) (Some u).
+  Let Q (v : nat) : Prop := fin g (dist st) (mget (mv st) v).
+
+  Lemma ks_PQ : forall u v, P u -> In v (adjU g u) -> Q v.
+  Proof.
+    intros u v [Hu Fu] Hv. destruct HD as [Hn [_ Hdone]].
+    destruct (Hdone u Hu Fu) as [[]|[Hle|Hall]]; [|now apply Hall].
+    unfold fin in Fu. lia.
+  Qed.
+
+  Lemma ks_M : forall u v, In (u, v) M <-> u < num_u g /\ mget (mu st) u = Some v.
+  Proof. intros. apply collect_In. Qed.
+
+  Lemma ks_QP : forall u v, Q v -> In (u, v) M -> P u.
+  Proof.
+    intros u v Hq Hm. apply ks_M in Hm. destruct Hm as [Hu Hm]. split; auto.
+    destruct HT as (_ & _ & HA & _). destruct (HA _ _ Hm) as [E _]. unfold Q in Hq. now rewrite E in Hq.
+  Qed.
+
+  Lemma ks_fun : forall u v v', In (u, v) M -> In (u, v') M -> v = v'.
+  Proof. intros u v v' H1 H2. apply ks_M in H1. apply ks_M in H2. destruct H1, H2. congruence. Qed.
+
+  Lemma ks_unmatched : forall r, r < num_u g -> ~ In r (map fst M) -> P r.
+  Proof.
+    intros r Hr Hn. split; auto. destruct HD as [_ [HJ _]].
+    unfold fin. rewrite (j_free _ _ _ _ _ HJ r Hr); [lia|].
+    apply is_free_None. destruct (mget (mu st) r) as [v|] eqn:E; auto.
+    exfalso. apply Hn. apply in_map_iff. exists (r, v). split; auto. apply ks_M. auto.
+  Qed.
+
+  Definition kinv2 (acc : list nat * list nat * trace) : Prop :=
+    let '(zu, zv, _) := acc in
+    (forall u, In u zu -> P u) /\ (forall v, In v zv -> Q v /\ vclosed g M zu v).
+
+  Lemma koenig_fold2 : forall starts acc acc', (forall r, In r starts -> P r) -> kinv2 acc ->
+    fold_left (koenig_step g M) starts (Some acc) = Some acc' -> kinv2 acc'.
+  Proof.
+    induction starts as [|r starts IH]; intros [[zu zv] tr] acc' Hs Hk H; simpl in H.
+    - inversion H; subst. exact Hk.
+    - destruct (explore (explore_fuel g) g M r ([], [])) as [s|] eqn:E;
+        [|rewrite koenig_fold_None in H; discriminate].
+      apply (IH _ _ (fun r' Hr' => Hs r' (or_intror Hr'))) in H; auto.
+      destruct (explore_spec2 g M W P Q ks_PQ ks_QP _ _ _ _ E (Hs r (or_introl eq_refl))) as ([I1 I2] & Hc).
+      { split; intros ? []. }
+      destruct Hk as [K1 K2]. split.
+      + intros u Hu. apply in_app_or in Hu. destruct Hu; auto.
+      + intros v Hv. apply in_app_or in Hv. destruct Hv as [Hv|Hv].
+        * destruct (K2 v Hv) as [Hq Hc']. split; auto. eapply vclosed_mono; [|exact Hc']. apply incl_appl, incl_refl.
+        * split; auto. destruct (Hc v Hv) as [[]|Hc']. eapply vclosed_mono; [|exact Hc']. apply incl_appr, incl_refl.
+  Qed.
+
+  Lemma bool_eq_iff : forall a b : bool, (a = true <-> b = true) -> a = b.
+  Proof. intros [|] [|] [H1 H2]; auto. - symmetry; auto. Qed.
+
+  Theorem koenig_size : forall cu cv, koenig g M = Some (cu, cv) -> length cu + length cv = length M.
+  Proof.
+    intros cu cv H.
+    destruct (koenig_visit_spec g M W) as (zu & zv & tr & E & [K1 K2] & Hall).
+    assert (Hk2 : kinv2 (zu, zv, tr)).
+    { unfold koenig_visit in E. eapply koenig_fold2; [| |exact E].
+      - intros r Hr. apply unmatched_u_spec in Hr. destruct Hr. now apply ks_unmatched.
+      - split; intros ? []. }
+    destruct Hk2 as [Z1 Z2].
+    unfold koenig in H. rewrite E in H. inversion H; subst cu cv. clear H.
+    pose proof HT as (L1 & L2 & HA & HB). pose proof HD as [Hn _].
+    assert (NM1 : NoDup (map fst M)) by (apply collect_fst, seq_NoDup).
+    assert (NM2 : NoDup (map snd M)) by (apply (collect_snd g st); auto; apply seq_NoDup).
+    (* every visited V vertex is matched *)
+    assert (F1 : forall v, In v zv -> exists u, In (u, v) M).
+    { intros v Hv. destruct (Z2 v Hv) as [Hq _]. unfold Q, fin in Hq.
+      destruct (mget (mv st) v) as [u|] eqn:Ev; [|lia].
+      exists u. apply ks_M. pose proof (HB _ _ Ev) as Hm. split; auto. apply mget_Some_lt in Hm. lia. }
+    (* a matched edge has its U end visited iff its V end is visited *)
+    assert (F2 : forall u v, In (u, v) M -> (In u zu <-> In v zv)).
+    { intros u v Hm. split.
+      - intros Hu. destruct (K1 u Hu) as [_ [Hnm|[v' [Hv' Hm']]]].
+        + exfalso. apply Hnm. apply in_map_iff. exists (u, v). auto.
+        + now rewrite (ks_fun u v v' Hm Hm').
+      - intros Hv. destruct (Z2 v Hv) as [_ Hc]. apply Hc; auto.
+        apply ks_M in Hm. destruct Hm as [_ Hm]. destruct (HA _ _ Hm) as [_ He]. now apply (wf_uv g W). }
+    assert (F3 : length (filter (fun u => negb (memn u zu)) (seq 0 (num_u g))) =
+                 length (filter (fun p => negb (memn (fst p) zu)) M)).
+    { rewrite <- (map_length fst (filter _ M)). apply Permutation_length. apply NoDup_Permutation.
+      - apply NoDup_filter, seq_NoDup.
+      - now apply NoDup_map_filter.
+      - intros x. rewrite filter_In, in_seq, in_map_iff. split.
+        + intros [Hx Hz]. destruct (memn x (map fst M)) eqn:Em.
+          * apply memn_In in Em. apply in_map_iff in Em. destruct Em as [[x' v] [Ex Hm]]. simpl in Ex. subst x'.
+            exists (x, v). split; auto. apply filter_In. auto.
+          * apply memn_nIn in Em. apply negb_true_iff in Hz. apply memn_nIn in Hz.
+            exfalso. apply Hz. apply Hall; auto. lia.
+        + intros [[x' v] [Ex Hm]]. simpl in Ex. subst x'. apply filter_In in Hm. destruct Hm as [Hm Hz].
+          simpl in Hz. split; auto. apply ks_M in Hm. lia. }
+    assert (F4 : length (sort_dedup zv) = length (filter (fun p => memn (snd p) zv) M)).
+    { rewrite <- (map_length snd (filter _ M)). apply Permutation_length. apply NoDup_Permutation.
+      - apply NoDup_sort_dedup.
+      - now apply NoDup_map_filter.
+      - intros x. rewrite In_sort_dedup, in_map_iff. split.
+        + intros Hx. destruct (F1 x Hx) as [u Hm]. exists (u, x). split; auto.
+          apply filter_In. split; auto. simpl. now apply memn_In.
+        + intros [[u x'] [Ex Hm]]. simpl in Ex. subst x'. apply filter_In in Hm. destruct Hm as [_ Hz].
+          simpl in Hz. now apply memn_In. }
+    assert (F5 : filter (fun p => memn (snd p) zv) M = filter (fun p => memn (fst p) zu) M).
+    { apply filter_ext_in. intros [u v] Hm. simpl. apply bool_eq_iff. rewrite !memn_In.
+      symmetry. now apply F2. }
+    rewrite F3, F4, F5. rewrite (filter_split_length _ (fun p => memn (fst p) zu) M). lia.
+  Qed.
+
+  Theorem no_augmenting_path : forall u v, areach g M u -> In v (adjU g u) -> exists u', In (u', v) M.
+  Proof.
+    intros u v Hr Hv. assert (Hp : P u).
+    { clear Hv. induction Hr as [u Hu Hn|u v0 u' Hr IH Hv0 Hm].
+      - now apply ks_unmatched.
+      - apply (ks_QP u' v0); [apply (ks_PQ u v0); assumption|assumption]. }
+    pose proof (ks_PQ u v Hp Hv) as Hq. unfold Q, fin in Hq.
+    pose proof HT as (_ & _ & _ & HB). pose proof HD as [Hn _].
+    destruct (mget (mv st) v) as [u'|] eqn:Ev; [|lia].
+    exists u'. apply ks_M. pose proof (HB _ _ Ev) as Hm. split; auto. apply mget_Some_lt in Hm.
+    destruct HT as (L1 & _). lia.
+  Qed.
+End KoenigSize.
+
+(* ================================================================================== *)
+(* 10. minimum_vertex_cover: the complete result                                       *)
+(* ================================================================================== *)
+Theorem mvc_spec : forall g, wf g -> exists r, mvc g = Some r /\
+  r_assert r = true /\
+  is_matching (r_matching r) /\ (forall u v, In (u, v) (r_matching r) -> In v (adjU g u)) /\
+  (forall u, In u (r_ucover r) -> u < num_u g) /\ (forall v, In v (r_vcover r) -> v < num_v g) /\
+  NoDup (r_ucover r) /\ NoDup (r_vcover r) /\
+  (forall u v, In v (adjU g u) -> In u (r_ucover r) \/ In v (r_vcover r)) /\
+  length (r_ucover r) + length (r_vcover r) = length (r_matching r).
+Proof.
+  intros g W. destruct (hopcroft_karp_spec g W) as (st & M & E1 & E2 & EM & HT & HD & HM & HE).
+  destruct (koenig_total g M W) as (cu & cv & Ek).
+  unfold mvc. rewrite E2, Ek. eexists. split; [reflexivity|]. cbn [r_matching r_ucover r_vcover r_assert].
+  assert (Hsz : length cu + length cv = length M).
+  { subst M. now apply (koenig_size g W st HT HD). }
+  destruct (koenig_range g M W cu cv Ek) as (R1 & R2 & R3 & R4).
+  split; [now apply Nat.eqb_eq|]. split; [exact HM|]. split; [exact HE|].
+  split; [exact R1|]. split; [exact R2|]. split; [exact R3|]. split; [exact R4|]. split; [|exact Hsz].
+  apply (koenig_cover g M W); auto.
+  intros u v v' H1 H2. subst M. apply collect_In in H1. apply collect_In in H2. destruct H1, H2. congruence.
+Qed.
+
+(* when the outer loop stops, no alternating walk from an unmatched U vertex reaches an unmatched V vertex *)
+Theorem hk_no_augmenting_path : forall g, wf g -> forall M, hopcroft_karp g = Some M ->
+  forall u v, areach g M u -> In v (adjU g u) -> exists u', In (u', v) M.
+Proof.
+  intros g W M H. destruct (hopcroft_karp_spec g W) as (st & M' & E1 & E2 & EM & HT & HD & _).
+  rewrite E2 in H. inversion H; subst M'. subst M. apply (no_augmenting_path g st HT HD).
+Qed.
+
+(* ---- statements in terms of the constructor's arguments ------------------------------ *)
+Theorem mvc_main : forall nu nv edges, edges_ok nu nv edges ->
+  exists r, mvc (mk_graph nu nv edges) = Some r /\ r_assert r = true /\
+    is_matching (r_matching r) /\ incl (r_matching r) edges /\
+    (forall u, In u (r_ucover r) -> u < nu) /\ (forall v, In v (r_vcover r) -> v < nv) /\
+    NoDup (r_ucover r) /\ NoDup (r_vcover r) /\
+    covers edges (r_ucover r) (r_vcover r) /\
+    length (r_ucover r) + length (r_vcover r) = length (r_matching r) /\
+    (forall M', is_matching M' -> incl M' edges -> length M' <= length (r_matching r)) /\
+    (forall cu' cv', covers edges cu' cv' ->
+       length (r_ucover r) + length (r_vcover r) <= length cu' + length cv').
+Proof.
+  intros nu nv edges Hok. destruct (mk_graph_spec nu nv edges Hok) as (N1 & N2 & W & AU & AV).
+  destruct (mvc_spec _ W) as (r & E & Ha & HM & HE & R1 & R2 & R3 & R4 & HC & Hsz).
+  rewrite N1 in R1. rewrite N2 in R2.
+  assert (Hi : incl (r_matching r) edges) by (intros [u v] H; apply AU; now apply HE).
+  assert (Hc : covers edges (r_ucover r) (r_vcover r)) by (intros u v H; apply HC; now apply AU).
+  destruct (equal_sizes_optimal edges _ _ _ HM Hi Hc Hsz) as [O1 O2].
+  exists r. repeat (split; [assumption|]). assumption.
+Qed.
+
+(* the constructor accepts exactly the inputs satisfying its asserts *)
+Theorem build_spec : forall nu nv edges,
+  let nedges := map (fun e => (Z.to_nat (fst e), Z.to_nat (snd e))) edges in
+  ((1 <= nu)%Z /\ (1 <= nv)%Z /\
+   (forall e, In e edges -> (0 <= fst e < nu)%Z /\ (0 <= snd e < nv)%Z)) ->
+  build nu nv edges = Some (mk_graph (Z.to_nat nu) (Z.to_nat nv) nedges) /\
+  edges_ok (Z.to_nat nu) (Z.to_nat nv) nedges.
+Proof.
+  intros nu nv edges nedges (H1 & H2 & H3). split.
+  - unfold build. replace (1 <=? nu)%Z with true by (symmetry; now apply Z.leb_le).
+    replace (1 <=? nv)%Z with true by (symmetry; now apply Z.leb_le).
+    replace (forallb (edge_okZ nu nv) edges) with true; [reflexivity|].
+    symmetry. apply forallb_forall. intros e He. destruct (H3 e He) as [[A B] [C D]].
+    unfold edge_okZ. apply Z.leb_le in A, C. apply Z.ltb_lt in B, D. now rewrite A, B, C, D.
+  - intros u v H. unfold nedges in H. apply in_map_iff in H. destruct H as [e [E He]].
+    inversion E; subst. destruct (H3 e He) as [[A B] [C D]]. split; apply Z2Nat.inj_lt; lia.
+Qed.
+
+Theorem build_reject : forall nu nv edges,
+  ~ ((1 <= nu)%Z /\ (1 <= nv)%Z /\
+     (forall e, In e edges -> (0 <= fst e < nu)%Z /\ (0 <= snd e < nv)%Z)) ->
+  build nu nv edges = None.
+Proof.
+  intros nu nv edges H. unfold build.
+  destruct ((1 <=? nu)%Z && (1 <=? nv)%Z && forallb (edge_okZ nu nv) edges) eqn:E; [|reflexivity].
+  exfalso. apply H. apply andb_true_iff in E. destruct E as [E E3]. apply andb_true_iff in E. destruct E as [E1 E2].
+  apply Z.leb_le in E1, E2. split; auto. split; auto. intros e He.
+  rewrite forallb_forall in E3. specialize (E3 e He). unfold edge_okZ in E3.
+  apply andb_true_iff in E3. destruct E3 as [E3 D]. apply andb_true_iff in E3. destruct E3 as [E3 C].
+  apply andb_true_iff in E3. destruct E3 as [A B].
+  apply Z.leb_le in A, C. apply Z.ltb_lt in B, D. lia.
+Qed.
+
+(* ---- the individual statements, in terms of the constructor's arguments --------------- *)
+Definition functional_on_u (M : list (nat * nat)) : Prop :=
+  forall u v v', In (u, v) M -> In (u, v') M -> v = v'.
+
+Theorem koenig_fuel_suffices : forall nu nv edges M, edges_ok nu nv edges ->
+  exists cu cv, koenig (mk_graph nu nv edges) M = Some (cu, cv).
+Proof.
+  intros nu nv edges M Hok. destruct (mk_graph_spec nu nv edges Hok) as (_ & _ & W & _).
+  now apply koenig_total.
+Qed.
+
+Theorem mvc_in_range : forall nu nv edges M cu cv, edges_ok nu nv edges ->
+  koenig (mk_graph nu nv edges) M = Some (cu, cv) ->
+  (forall u, In u cu -> u < nu) /\ (forall v, In v cv -> v < nv) /\ NoDup cu /\ NoDup cv.
+Proof.
+  intros nu nv edges M cu cv Hok H. destruct (mk_graph_spec nu nv edges Hok) as (N1 & N2 & W & _).
+  pose proof (koenig_range _ M W cu cv H) as R. now rewrite N1, N2 in R.
+Qed.
+
+Theorem mvc_is_cover : forall nu nv edges M cu cv, edges_ok nu nv edges -> functional_on_u M ->
+  koenig (mk_graph nu nv edges) M = Some (cu, cv) -> covers edges cu cv.
+Proof.
+  intros nu nv edges M cu cv Hok HF H. destruct (mk_graph_spec nu nv edges Hok) as (_ & _ & W & AU & _).
+  intros u v He. apply (koenig_cover _ M W HF cu cv H). now apply AU.
+Qed.
+
+Theorem hk_fuel_suffices : forall nu nv edges, edges_ok nu nv edges ->
+  exists M, hopcroft_karp (mk_graph nu nv edges) = Some M.
+Proof.
+  intros nu nv edges Hok. destruct (mk_graph_spec nu nv edges Hok) as (_ & _ & W & _).
+  destruct (hopcroft_karp_spec _ W) as (st & M & _ & E & _). eauto.
+Qed.
+
+Theorem hk_valid_matching : forall nu nv edges M, edges_ok nu nv edges ->
+  hopcroft_karp (mk_graph nu nv edges) = Some M -> is_matching M /\ incl M edges.
+Proof.
+  intros nu nv edges M Hok H. destruct (mk_graph_spec nu nv edges Hok) as (_ & _ & W & AU & _).
+  destruct (hopcroft_karp_spec _ W) as (st & M' & _ & E & _ & _ & _ & HM & HE).
+  rewrite E in H. inversion H; subst M'. split; auto. intros [u v] Hin. apply AU. now apply HE.
+Qed.
+
+Theorem hk_no_augmenting_path_edges : forall nu nv edges M, edges_ok nu nv edges ->
+  hopcroft_karp (mk_graph nu nv edges) = Some M ->
+  forall u v, areach (mk_graph nu nv edges) M u -> In (u, v) edges -> exists u', In (u', v) M.
+Proof.
+  intros nu nv edges M Hok H u v Hr He. destruct (mk_graph_spec nu nv edges Hok) as (_ & _ & W & AU & _).
+  apply (hk_no_augmenting_path _ W M H u v Hr). now apply AU.
+Qed.
+
+Theorem mvc_size_eq_matching : forall nu nv edges r, edges_ok nu nv edges ->
+  mvc (mk_graph nu nv edges) = Some r ->
+  r_assert r = true /\ length (r_ucover r) + length (r_vcover r) = length (r_matching r).
+Proof.
+  intros nu nv edges r Hok H. destruct (mvc_main nu nv edges Hok) as (r' & E & Ha & _ & _ & _ & _ & _ & _ & _ & Hs & _).
+  rewrite E in H. inversion H; subst. auto.
+Qed.
